@@ -512,6 +512,38 @@ func (r *sgRun) exec(i int, op sgOp) {
 				}
 			}
 		}
+	case "addsimulcast":
+		// a sender with several encodings: a track with a rid, further layers through AddEncoding
+		rec.Kind = "media"
+		n := len(ps.tracks)
+		cap := RTPCodecCapability{MimeType: MimeTypeVP8, ClockRate: 90000}
+		if ps.cfg.Codecs == 2 {
+			cap = RTPCodecCapability{MimeType: MimeTypeH264, ClockRate: 90000, SDPFmtpLine: "level-asymmetry-allowed=1;packetization-mode=1;profile-level-id=42e01f"}
+		}
+		layer := func(rid string) *TrackLocalStaticRTP {
+			t, _ := NewTrackLocalStaticRTP(cap, fmt.Sprintf("trk-%s-%d", ps.p.name, n), fmt.Sprintf("strm-%s-%d", ps.p.name, n%2), WithRTPStreamID(rid))
+			return t
+		}
+		first := layer("q")
+		ps.tracks = append(ps.tracks, first)
+		var s *RTPSender
+		if op.A&1 == 0 {
+			s, err = pc.AddTrack(first)
+		} else {
+			var t *RTPTransceiver
+			if t, err = pc.AddTransceiverFromTrack(first, RTPTransceiverInit{Direction: RTPTransceiverDirectionSendonly}); err == nil {
+				s = t.Sender()
+			}
+		}
+		if err == nil {
+			ps.senders = append(ps.senders, s)
+			ps.changes = append(ps.changes, sgChange{rec.Idx, "addsimulcast"})
+			for _, rid := range []string{"h", "f"}[:1+op.B&1] {
+				if e := s.AddEncoding(layer(rid)); e != nil {
+					err = e
+				}
+			}
+		}
 	case "removetrack":
 		rec.Kind = "media"
 		if len(ps.senders) == 0 {
